@@ -35,7 +35,7 @@ VARIABLES
 
 vars == <<att, cs, st, via, wire, hold, cq, steps>>
 
-S0 == [seen |-> FALSE, kind |-> "", port |-> 0, ans |-> "-", dec |-> <<>>, rep |-> 0, asked |-> 0]
+S0 == [seen |-> FALSE, kind |-> "", port |-> 0, ans |-> "-", dec |-> <<>>, rep |-> 0, asked |-> 0, end |-> ""]
 V0 == [st |-> "idle", circ |-> 0, port |-> 0]
 
 Init ==
@@ -92,6 +92,17 @@ Answer(s) ==
        /\ st' = [st EXCEPT ![s].ans = "-", ![s].dec = d.dec, ![s].rep = d.rep]
        /\ Out(d.w)
   /\ Tick /\ UNCHANGED <<att, cs, via>>
+
+\* Tor reports a stream we know FAILED (it is forgotten), and afterwards CLOSED (for the view: an unknown
+\* stream whose first event is terminal): neither is a new attachable stream, no decision is made
+StreamFailed(s) ==
+  /\ st[s].seen /\ st[s].end = "" /\ st[s].ans = "-"
+  /\ st' = [st EXCEPT ![s].end = "failed"]
+  /\ Out(<<>>) /\ Tick /\ UNCHANGED <<att, cs, via>>
+LateClosed(s) ==
+  /\ st[s].seen /\ st[s].end = "failed"
+  /\ st' = [st EXCEPT ![s].end = "closed"]
+  /\ Out(<<>>) /\ Tick /\ UNCHANGED <<att, cs, via>>
 
 \* TorState.set_attacher
 SetAttacher(a) ==
@@ -153,7 +164,7 @@ Next ==
   /\ steps < MaxSteps
   /\ \/ \E s \in Streams, kind \in {"normal", "exit", "resolve"}, p \in Ports, a \in Answers, mode \in Modes :
           NewStream(s, kind, p, a, mode) /\ (att # "A" => a = "none" /\ mode = "imm")
-     \/ \E s \in Streams : Answer(s)
+     \/ \E s \in Streams : Answer(s) \/ StreamFailed(s) \/ LateClosed(s)
      \/ \E a \in {"A", "B", "none"} : SetAttacher(a)
      \/ \E k \in Conns, c \in Circs, late \in BOOLEAN : ViaConnect(k, c, late)
      \/ ConfAck
